@@ -257,7 +257,7 @@ func (cs *Contracts) parseFile(file, pkgPath string) error {
 				}
 			case "capture":
 				// capture name = call(selector, ord)
-				m := regexp.MustCompile(`^(\w+)\s*=\s*call\(\s*([^,]+?)\s*,\s*(\d+)\s*\)$`).FindStringSubmatch(rest)
+				m := regexp.MustCompile(`^(\w+)\s*=\s*call\(\s*(.+)\s*,\s*(\d+)\s*\)$`).FindStringSubmatch(rest)
 				if m == nil {
 					return fmt.Errorf("%s:%d: bad capture clause", file, it.line)
 				}
